@@ -61,8 +61,10 @@ theorem save_inv (st : State B T) (p : Path) (f : File B) (hf : st.fs p = some f
 
 theorem fallLoad_spec (st : State B T) (p : Path) (f : File B) (hf : st.fs p = some f)
     (hi : Inv parse st) :
-    (fallLoad cfg parse st p f).1 = some (parse f.bytes) ∧ Inv parse (fallLoad cfg parse st p f).2 ∧
-    (fallLoad cfg parse st p f).2.fs = st.fs ∧ (fallLoad cfg parse st p f).2.modcache = st.modcache := by
+    (fallLoad cfg parse st p f.mtime f).1 = some (parse f.bytes) ∧
+    Inv parse (fallLoad cfg parse st p f.mtime f).2 ∧
+    (fallLoad cfg parse st p f.mtime f).2.fs = st.fs ∧
+    (fallLoad cfg parse st p f.mtime f).2.modcache = st.modcache := by
   unfold fallLoad
   split
   · rename_i it hit
@@ -113,9 +115,14 @@ theorem cachedLoad_spec (st : State B T) (p : Path) (f : File B) (hf : st.fs p =
       · cases h
   · cases h
 
+/-- a FileIO that reports the file system's mtime -/
+theorem reported_eq (hs : cfg.stampIsFsMtime = true) (m : Nat) : reported cfg m = m := by
+  simp [reported, hs]
+
 /-- `load` serves the parse of the bytes that are on disk now, or nothing when the file is gone;
-the invariant is kept; the file system is not touched -/
-theorem load_spec (st : State B T) (p : Path) (hi : Inv parse st) :
+the invariant is kept; the file system is not touched.  Needs the stamp the layers compare to be the
+file's own mtime (`hs`): with a coarser one see `Props.C09.stale_if_stamp_truncated`. -/
+theorem load_spec (hs : cfg.stampIsFsMtime = true) (st : State B T) (p : Path) (hi : Inv parse st) :
     (load cfg parse st p).1 = (st.fs p).map (fun f => parse f.bytes) ∧
     Inv parse (load cfg parse st p).2 ∧ (load cfg parse st p).2.fs = st.fs ∧
     (load cfg parse st p).2.modcache = st.modcache := by
@@ -123,7 +130,7 @@ theorem load_spec (st : State B T) (p : Path) (hi : Inv parse st) :
   cases hf : st.fs p with
   | none => exact ⟨rfl, hi, rfl, rfl⟩
   | some f =>
-    simp only [Option.map_some]
+    simp only [Option.map_some, reported_eq cfg hs]
     cases hc : cachedLoad cfg st p f.mtime with
     | none => exact fallLoad_spec cfg parse st p f hf hi
     | some r =>
@@ -135,13 +142,13 @@ theorem load_spec (st : State B T) (p : Path) (hi : Inv parse st) :
 
 /-- candidates are tried in order; under the invariant the first one that exists is served from its
 present bytes, whatever the cache layers hold -/
-theorem loadFirst_spec (l : List Path) (st : State B T) (hi : Inv parse st) :
+theorem loadFirst_spec (hs : cfg.stampIsFsMtime = true) (l : List Path) (st : State B T) (hi : Inv parse st) :
     (loadFirst cfg parse st l).1 = firstServed parse st.fs l ∧
     Inv parse (loadFirst cfg parse st l).2 ∧ (loadFirst cfg parse st l).2.fs = st.fs := by
   induction l generalizing st with
   | nil => exact ⟨rfl, hi, rfl⟩
   | cons p r ih =>
-    obtain ⟨h1, h2, h3, _⟩ := load_spec cfg parse st p hi
+    obtain ⟨h1, h2, h3, _⟩ := load_spec cfg parse hs st p hi
     unfold loadFirst firstServed
     rcases hl : load cfg parse st p with ⟨_ | t, st'⟩
     · rw [hl] at h1 h2 h3
@@ -207,10 +214,10 @@ theorem listing_now (st : State B T) (d : Path) (hc : cfg.stubListingCached = fa
   simp [hc]
 
 /-- the stub lookup keeps the invariant and does not touch the file system (any configuration) -/
-theorem tryLoadStub_inv (st : State B T) (q : StubQuery) (hi : Inv parse st) :
+theorem tryLoadStub_inv (hs : cfg.stampIsFsMtime = true) (st : State B T) (q : StubQuery) (hi : Inv parse st) :
     Inv parse (tryLoadStub cfg parse st q).2 ∧ (tryLoadStub cfg parse st q).2.fs = st.fs := by
   unfold tryLoadStub
-  obtain ⟨_, b1, c1⟩ := loadFirst_spec cfg parse q.direct st hi
+  obtain ⟨_, b1, c1⟩ := loadFirst_spec cfg parse hs q.direct st hi
   rcases h1 : loadFirst cfg parse st q.direct with ⟨_ | r, st1⟩
   · rw [h1] at b1 c1
     simp only at b1 c1 ⊢
@@ -222,7 +229,7 @@ theorem tryLoadStub_inv (st : State B T) (q : StubQuery) (hi : Inv parse st) :
           else (none, st1)).2.fs = st.fs := by
       split
       · obtain ⟨li, lf⟩ := listing_inv cfg parse st1 q.dir b1
-        obtain ⟨_, b2, c2⟩ := loadFirst_spec cfg parse
+        obtain ⟨_, b2, c2⟩ := loadFirst_spec cfg parse hs
           (stubMapOf (listing cfg st1 q.dir).1 q).toList (listing cfg st1 q.dir).2 li
         exact ⟨b2, by rw [c2, lf, c1]⟩
       · exact ⟨b1, c1⟩
@@ -232,7 +239,7 @@ theorem tryLoadStub_inv (st : State B T) (q : StubQuery) (hi : Inv parse st) :
     · rw [h2] at hvia
       simp only at hvia ⊢
       split
-      · obtain ⟨_, b3, c3⟩ := loadFirst_spec cfg parse [q.modStub] st3 hvia.1
+      · obtain ⟨_, b3, c3⟩ := loadFirst_spec cfg parse hs [q.modStub] st3 hvia.1
         exact ⟨b3, by rw [c3, hvia.2]⟩
       · exact hvia
     · rw [h2] at hvia
@@ -242,11 +249,11 @@ theorem tryLoadStub_inv (st : State B T) (q : StubQuery) (hi : Inv parse st) :
 
 /-- **the stub served.**  When `_create_stub_map` is not memoised, the stub lookup answers from
 the files as they are now: the same candidate, parsed from its present bytes, as `stubNow` -/
-theorem tryLoadStub_spec (st : State B T) (q : StubQuery) (hi : Inv parse st)
+theorem tryLoadStub_spec (hs : cfg.stampIsFsMtime = true) (st : State B T) (q : StubQuery) (hi : Inv parse st)
     (hc : cfg.stubListingCached = false) :
     (tryLoadStub cfg parse st q).1 = stubNow parse st.fs q := by
   unfold tryLoadStub stubNow
-  obtain ⟨a1, b1, c1⟩ := loadFirst_spec cfg parse q.direct st hi
+  obtain ⟨a1, b1, c1⟩ := loadFirst_spec cfg parse hs q.direct st hi
   rcases h1 : loadFirst cfg parse st q.direct with ⟨_ | r, st1⟩
   · rw [h1] at a1 b1 c1
     simp only at a1 b1 c1 ⊢
@@ -255,7 +262,7 @@ theorem tryLoadStub_spec (st : State B T) (q : StubQuery) (hi : Inv parse st)
     rw [← c1]
     by_cases hu : q.useListing = true
     · simp only [hu, if_true]
-      obtain ⟨a2, b2, c2⟩ := loadFirst_spec cfg parse
+      obtain ⟨a2, b2, c2⟩ := loadFirst_spec cfg parse hs
         (stubMapOf (fun p => (st1.fs p).isSome) q).toList st1 b1
       rcases h2 : loadFirst cfg parse st1 (stubMapOf (fun p => (st1.fs p).isSome) q).toList with ⟨_ | r, st3⟩
       · rw [h2] at a2 b2 c2
@@ -263,7 +270,7 @@ theorem tryLoadStub_spec (st : State B T) (q : StubQuery) (hi : Inv parse st)
         rw [← a2]
         simp only
         split
-        · obtain ⟨a3, _, _⟩ := loadFirst_spec cfg parse [q.modStub] st3 b2
+        · obtain ⟨a3, _, _⟩ := loadFirst_spec cfg parse hs [q.modStub] st3 b2
           rw [a3, c2]
         · rfl
       · rw [h2] at a2
@@ -272,7 +279,7 @@ theorem tryLoadStub_spec (st : State B T) (q : StubQuery) (hi : Inv parse st)
     · simp only [hu]
       simp only [Bool.false_eq_true, if_false]
       split
-      · obtain ⟨a3, _, _⟩ := loadFirst_spec cfg parse [q.modStub] st1 b1
+      · obtain ⟨a3, _, _⟩ := loadFirst_spec cfg parse hs [q.modStub] st1 b1
         rw [a3]
       · rfl
   · rw [h1] at a1
@@ -281,7 +288,7 @@ theorem tryLoadStub_spec (st : State B T) (q : StubQuery) (hi : Inv parse st)
 
 variable (find : (Path → Option (File B)) → String → Option Path)
 
-theorem importName_inv (st : State B T) (n : String) (hi : Inv parse st) :
+theorem importName_inv (hs : cfg.stampIsFsMtime = true) (st : State B T) (n : String) (hi : Inv parse st) :
     Inv parse (importName cfg parse find st n).2 ∧ (importName cfg parse find st n).2.fs = st.fs := by
   unfold importName
   cases st.modcache n with
@@ -292,11 +299,11 @@ theorem importName_inv (st : State B T) (n : String) (hi : Inv parse st) :
     | none => exact ⟨⟨hi.memOk, hi.pickleOk⟩, rfl⟩
     | some p =>
       simp only
-      obtain ⟨_, h2, h3, _⟩ := load_spec cfg parse st p hi
+      obtain ⟨_, h2, h3, _⟩ := load_spec cfg parse hs st p hi
       exact ⟨⟨h2.memOk, h2.pickleOk⟩, h3⟩
 
 /-- every operation whose stamp hypothesis holds keeps the invariant -/
-theorem step_inv (st : State B T) (o : Op B) (hi : Inv parse st) (ho : OpOk st o) :
+theorem step_inv (hs : cfg.stampIsFsMtime = true) (st : State B T) (o : Op B) (hi : Inv parse st) (ho : OpOk st o) :
     Inv parse (step cfg parse find st o) := by
   cases o with
   | write p b m =>
@@ -404,9 +411,9 @@ theorem step_inv (st : State B T) (o : Op B) (hi : Inv parse st) (ho : OpOk st o
           have := ho.2 pk h
           omega
         · exact (hi.pickleOk q pk h).2 f h2 hle
-  | load p => exact (load_spec cfg parse st p hi).2.1
-  | importName n => exact (importName_inv cfg parse find st n hi).1
-  | stubImport q => exact (tryLoadStub_inv cfg parse st q hi).1
+  | load p => exact (load_spec cfg parse hs st p hi).2.1
+  | importName n => exact (importName_inv cfg parse find hs st n hi).1
+  | stubImport q => exact (tryLoadStub_inv cfg parse hs st q hi).1
   | newScript =>
     simp only [step]
     split
@@ -420,12 +427,12 @@ theorem step_inv (st : State B T) (o : Op B) (hi : Inv parse st) (ho : OpOk st o
 theorem inv_freshProcess (st : State B T) : Inv parse (freshProcess st) := by
   constructor <;> simp [freshProcess]
 
-theorem run_inv (h : List (Op B)) (st : State B T) (hi : Inv parse st)
+theorem run_inv (hs : cfg.stampIsFsMtime = true) (h : List (Op B)) (st : State B T) (hi : Inv parse st)
     (hok : AllOk cfg parse find st h) : Inv parse (run cfg parse find st h) := by
   induction h generalizing st with
   | nil => exact hi
   | cons o r ih =>
-    exact ih _ (step_inv cfg parse find st o hi hok.1) hok.2
+    exact ih _ (step_inv cfg parse find hs st o hi hok.1) hok.2
 
 end
 end JediModel.DiskCache
